@@ -22,7 +22,7 @@ From AV Require Export Model.BatchFail.
 Definition key := name.
 
 (* type tokens of the catalogue and SQLAlchemy's _type_affinity classes *)
-Definition ty := N.         (* 0 INTEGER, 1 BIGINT, 2 TEXT, 3 VARCHAR(20), 4 NUMERIC(10,2), 5 FLOAT *)
+Definition ty := N.         (* 0 INTEGER, 1 BIGINT, 2 TEXT, 3 VARCHAR(20), 4 NUMERIC(10,2), 5 NUMERIC(10,0) *)
 Definition affinity (t:ty) : N := match t with 0 | 1 => 0 | 2 | 3 => 1 | _ => 2 end%N.
 
 Record col := mkCol { c_name : name; c_ty : ty; c_nullable : bool; c_default : option name }.   (* default: the literal text *)
